@@ -48,7 +48,7 @@ func (s *sliceNode) execute(data any) (any, error) {
 		if err != nil {
 			return nil, err
 		}
-		values = reflect.Append(values, reflect.ValueOf(value))
+		values = reflect.Append(values, valueOf(value, s.typ.Elem()))
 	}
 	return values.Interface(), nil
 }
@@ -64,7 +64,16 @@ func (m *mapNode) execute(data any) (any, error) {
 		if err != nil {
 			return nil, err
 		}
-		values.SetMapIndex(reflect.ValueOf(keyRes), reflect.ValueOf(value))
+		values.SetMapIndex(valueOf(keyRes, m.typ.Key()), valueOf(value, m.typ.Elem()))
 	}
 	return values.Interface(), nil
+}
+
+// valueOf is reflect.ValueOf, except that a nil value becomes the zero value of typ
+// (a null element of a list, a null entry of a map) instead of the invalid Value.
+func valueOf(value any, typ reflect.Type) reflect.Value {
+	if value == nil {
+		return reflect.Zero(typ)
+	}
+	return reflect.ValueOf(value)
 }
